@@ -201,7 +201,34 @@ def build_sources(srcdesc):
     return [source_fn(d, i) for i, d in enumerate(srcdesc)]
 
 
+def _decoy_models(name, when):
+    """Models are independent objects: scripts build several (a loop over gamma, g or the speed) before using any.  Other models of the same family,
+    with other parameters, are therefore constructed BEFORE and AFTER every model under test (class-level or module-level state would leak)."""
+    if name == "convection":
+        import flowdyn.modelphy.convection as conv
+        conv.model(-3.7 if when == "before" else 0.31)
+    elif name == "burgers":
+        import flowdyn.modelphy.burgers as burgers
+        burgers.model()
+    elif name == "shallowwater":
+        import flowdyn.modelphy.shallowwater as sw
+        sw.shallowwater1d(g=1.62 if when == "before" else 24.8)
+    else:
+        import flowdyn.modelphy.euler as euler
+        g = 1.07 if when == "before" else 1.93
+        euler.euler1d(gamma=g)
+        euler.euler2d(gamma=g + 0.01)
+        euler.nozzle(lambda x: 1.0 + 0.0 * x, gamma=g - 0.01)
+
+
 def build_model(desc):
+    _decoy_models(desc["name"], "before")
+    model = _build_model(desc)
+    _decoy_models(desc["name"], "after")
+    return model
+
+
+def _build_model(desc):
     name = desc["name"]
     if name == "convection":
         import flowdyn.modelphy.convection as conv
